@@ -9,8 +9,11 @@
 (*     list     = the `modules` list of the configuration, in order,       *)
 (*     missing  = modules for which no shared object exists,               *)
 (*     nopost   = modules whose shared object has no module_post_init,     *)
-(*     nodtor   = modules whose shared object has no module_destructor     *)
-(*                (both entry points are optional; "hook profile");        *)
+(*     nodtor   = modules whose shared object has no module_destructor,    *)
+(*     noctor   = modules whose shared object has no module_constructor    *)
+(*                (all three entry points are optional; "hook profile";    *)
+(*                a module without a constructor cannot call               *)
+(*                module_depends(): deps[m] = <<>> for every m in noctor); *)
 (*   * the event log written by the modules' own entry points              *)
 (*     (ctor-begin / ctor-end / post-init / dtor, with the module), plus   *)
 (*     "running" = the process was observed inside main()'s event loop;    *)
@@ -54,6 +57,18 @@
 (*    every needed module is constructed once, dependencies first, and a   *)
 (*    module that is merely reachable along two paths -- with or without   *)
 (*    hooks -- is no cycle: the case is GOOD and must start.               *)
+(*  - module_constructor is optional too.  A module without it (a plain    *)
+(*    library of helper functions; it can declare no dependencies, so it   *)
+(*    is a leaf of the graph) writes no ctor-begin / ctor-end.  "Each      *)
+(*    module is constructed once" and "its dependencies are fully          *)
+(*    constructed before it finishes constructing" relate the constructor  *)
+(*    events that exist: a constructor-less dependency counts as           *)
+(*    constructed once the loader has loaded it, which no entry point of   *)
+(*    it can witness, so the contract places no constructor requirement on *)
+(*    it.  Everything else applies to it as to any other module: it is     *)
+(*    needed when named or pulled in, it is no cycle, its post-init and    *)
+(*    its destructor (if it has them) are owed exactly once and in order,  *)
+(*    and the modules that depend on it are owed theirs.                   *)
 (***************************************************************************)
 EXTENDS Naturals, Integers, Sequences, FiniteSets
 
@@ -81,6 +96,7 @@ Good(c)       == ~Cyclic(c) /\ ~Unloadable(c)
 \* the hook profile: which modules have the optional entry points
 HasPost(c, m) == m \notin c.nopost
 HasDtor(c, m) == m \notin c.nodtor
+HasCtor(c, m) == m \notin c.noctor
 \* everything m depends on, directly or through ANY modules, that has the entry point itself
 PostDepsOf(c, m) == {d \in DependsOnPlus(c, m) : HasPost(c, d)}
 DtorDepsOf(c, m) == {d \in DependsOnPlus(c, m) : HasDtor(c, d)}
@@ -102,31 +118,38 @@ WellFormed(c, log, status) ==
     /\ \A m \in 1..c.n : Range(c.deps[m]) \subseteq 1..c.n
     /\ Len(c.list) >= 1 /\ Range(c.list) \subseteq 1..c.n
     /\ c.missing \subseteq 1..c.n
-    /\ c.nopost \subseteq 1..c.n /\ c.nodtor \subseteq 1..c.n
+    /\ c.nopost \subseteq 1..c.n /\ c.nodtor \subseteq 1..c.n /\ c.noctor \subseteq 1..c.n
+    \* without a constructor there is nobody to call module_depends()
+    /\ \A m \in c.noctor : c.deps[m] = <<>>
     /\ \A i \in 1..Len(log) : /\ log[i].e \in Kinds
                               /\ log[i].m \in (IF log[i].e = "running" THEN {0} ELSE 1..c.n)
                               \* an entry point the shared object does not contain cannot have written a line
                               /\ log[i].e = "post-init" => HasPost(c, log[i].m)
                               /\ log[i].e = "dtor" => HasDtor(c, log[i].m)
+                              /\ log[i].e \in {"ctor-begin", "ctor-end"} => HasCtor(c, log[i].m)
     /\ status \in Int
 
 (* ---- GOOD cases: "For every acyclic dependency graph among the modules named in the ---- *)
 (* ---- configuration or pulled in by others ..."                                      ---- *)
 
-\* "... each module is constructed once ..."  (and the constructor is the first entry point called)
+\* "... each module is constructed once ..."  (and the constructor is the first entry point called);
+\* at most once, and never for a module without the entry point ("at least once" for the modules that
+\* have it is A_StartsComplete); a module without a constructor has no first entry point to wait for
 A_CtorOnce(c, log) ==
     \A m \in 1..c.n :
-        /\ Count(log, "ctor-begin", m) <= 1
-        /\ Count(log, "ctor-end", m) <= 1
+        /\ Count(log, "ctor-begin", m) <= (IF HasCtor(c, m) THEN 1 ELSE 0)
+        /\ Count(log, "ctor-end", m) <= (IF HasCtor(c, m) THEN 1 ELSE 0)
         /\ \A i \in 1..Len(log) :
               /\ log[i] = Ev("ctor-end", m) => Before(log, "ctor-begin", m, i)
-              /\ log[i] \in {Ev("post-init", m), Ev("dtor", m)} => Before(log, "ctor-end", m, i)
+              /\ (HasCtor(c, m) /\ log[i] \in {Ev("post-init", m), Ev("dtor", m)})
+                    => Before(log, "ctor-end", m, i)
 
 \* "... its dependencies are fully constructed before it finishes constructing ..."
+\* (a dependency without a constructor is constructed as soon as it is loaded and has no event to show it)
 A_DepsConstructedFirst(c, log) ==
     \A i \in 1..Len(log) :
         log[i].e = "ctor-end" =>
-            \A d \in Range(c.deps[log[i].m]) : Before(log, "ctor-end", d, i)
+            \A d \in Range(c.deps[log[i].m]) : HasCtor(c, d) => Before(log, "ctor-end", d, i)
 
 \* "... its post-init runs exactly once ..."   (at most once, and never for a module without the entry
 \* point; "at least once" for the modules that have it is A_StartsComplete)
@@ -151,13 +174,14 @@ A_DtorBeforeDeps(c, log) ==
               \A d \in DtorDepsOf(c, log[i].m) : ~Before(log, "dtor", d, i)
 
 \* a GOOD case starts up: it is seen running exactly once, and by then every needed module has
-\* been constructed and -- if it has a post-init -- post-initialised (exactly once, by the conjuncts
-\* above) and none destroyed.  Whatever the hook profile: a graph without a cycle must start.
+\* been constructed -- if it has a constructor -- and -- if it has a post-init -- post-initialised
+\* (exactly once, by the conjuncts above) and none destroyed.  Whatever the hook profile: a graph
+\* without a cycle must start.
 A_StartsComplete(c, log) ==
     /\ Cardinality({i \in 1..Len(log) : log[i].e = "running"}) = 1
     /\ \A i \in 1..Len(log) :
           log[i].e = "running" =>
-              /\ \A m \in Needed(c) : /\ Before(log, "ctor-end", m, i)
+              /\ \A m \in Needed(c) : /\ HasCtor(c, m) => Before(log, "ctor-end", m, i)
                                       /\ HasPost(c, m) => Before(log, "post-init", m, i)
               /\ \A m \in 1..c.n : ~Before(log, "dtor", m, i)
 
